@@ -82,6 +82,31 @@ def check(ctx, rep):
         fill = norm(e[0].value.args[1]) if len(e[0].value.args) > 1 else ''
     rep.ob('format.exact-width', 'fits: right-justified to exactly len(tokens) characters (len <= N  =>  rjust(N) has length N)', big and okfit, '', ctx.where(last_if))
     rep.ob('format.fill', "fill is '*' iff the field contains '*'", fill == "b'*' if b'*' in tokens else b' '", fill, ctx.where(last_if))
+    # cosmetic padding (the leading zero before a bare radix point) must never turn a number that fits
+    # into one that does not: every statement that lengthens the finished representation is under len < N
+    grow = []
+    seen_fmt = False
+    for st in nf.body[:nf.body.index(last_if)]:
+        if any(isinstance(c, ast.Call) and norm(c.func) in ('value.to_str_scientific', 'value.to_str_fixed') for c in ast.walk(st)):
+            seen_fmt = True
+            continue
+        if not seen_fmt:
+            continue
+        for a in ast.walk(st):
+            if isinstance(a, ast.Assign) and norm(a.targets[0]) == 'valstr' and isinstance(a.value, ast.BinOp) and isinstance(a.value.op, ast.Add) \
+                    and isinstance(a.value.left, ast.Constant) and isinstance(a.value.left.value, bytes):
+                r = a.value.right
+                cut = 0
+                if isinstance(r, ast.Subscript) and isinstance(r.slice, ast.Slice) and r.slice.lower is not None and isinstance(r.slice.lower, ast.Constant) and r.slice.upper is None:
+                    cut = r.slice.lower.value
+                    r = r.value
+                if norm(r) == 'valstr' and len(a.value.left.value) - cut > 0:
+                    grow.append(a)
+    for a in grow:
+        rep.ob('format.padding-keeps-fit', 'leading zero only where there is room: %s' % short(a, 40), fl.knows(a, 'len(valstr) < len(tokens)', True),
+               'the representation is lengthened without knowing that it is shorter than the field: a number that fits exactly is reported as overflow (%)',
+               ctx.where(a))
+    rep.floor('format.padding-keeps-fit', len(grow), 3, 'padding statements')
     ifc = [r for r, c in ctx.raises_in(nf) if c == 'ILLEGAL_FUNCTION_CALL']
     rep.ob('format.max-digits', 'more than 24 digit positions raise IFC', len(ifc) == 1 and fl.knows(ifc[0], 'digits_before + decimals > 24', True), '', ctx.where(nf))
     first = [s for s in nf.body if isinstance(s, ast.Assign)][0]
@@ -123,6 +148,8 @@ def variants(ctx):
         return lambda tree: f(mu.find_def(tree, f_name))
 
     return [
+        Va('leading-zero-without-room', 'break', F,
+           in_fn('NumberField.format', lambda fn: mu.replace_expr(fn, mu.text_is('len(valstr) < len(tokens)'), 'len(valstr) <= len(tokens)')), expect='format.padding-keeps-fit'),
         Va('rjust-to-digit-count', 'break', F,
            in_fn('NumberField.format', lambda fn: mu.replace_expr(fn, mu.text_is("valstr.rjust(len(tokens), b'*' if b'*' in tokens else b' ')"),
                                                                  "valstr.rjust(digits_before + decimals, b'*' if b'*' in tokens else b' ')")), expect='format.exact-width'),
